@@ -174,4 +174,15 @@ example :
     (endBlock true { st with maxSupply := 10 ^ 29 } b).2 = 49332119004 := by
   refine ⟨?_, ?_, ?_⟩ <;> decide +kernel
 
+/-- **consecutive block timestamps**: every block processed by MintAndAllocate becomes the reference of the next one —
+    on the first block after activation, on an ordinary block, on the block that reaches the cap, and also when the
+    formula amount is negative (a negative reward coefficient, which validation accepts, or a clock running backwards:
+    nothing is minted, but the reference moves on; before the repair it stayed, and the first block after the
+    coefficient became positive again minted for the whole gap) -/
+theorem every_minting_block_is_the_reference (st : State) (b : Block) : (mintAndAllocate st b).1.prevTS = b.timeMs := by
+  unfold mintAndAllocate
+  split
+  · rfl
+  · split <;> rfl
+
 end Haqq.Coinomics
